@@ -687,6 +687,12 @@ with SqlImpl.impl_store.impl_manager as impl:
     def _xor(lhs, rhs):
         return lhs != rhs
 
+    @impl(ops.neg)
+    def _neg(x):
+        # Parenthesize the operand: the negation of a negative literal would
+        # otherwise be rendered as `--1`, which starts a SQL comment.
+        return -sqa.sql.elements.Grouping(x)
+
     @impl(ops.pos)
     def _pos(x):
         return x
